@@ -577,7 +577,9 @@ HDR_DIRS = [{'form': 'rel', 'value': 'demo-1'}, {'form': 'rel', 'value': 'foo/ap
 LIB_DIRS = [{'form': 'rel', 'value': 'demo-1'}, {'form': 'rel', 'value': 'foo/plugins'},
             {'form': 'path', 'root': 'libdir', 'value': 'abs-lib'},
             {'form': 'path', 'root': 'prefix', 'value': 'opt/lib'},
-            {'form': 'path', 'root': 'exec_prefix', 'value': 'lib32'}, None]
+            {'form': 'path', 'root': 'exec_prefix', 'value': 'lib32'}, None,
+            {'form': 'path', 'root': 'bindir', 'value': 'plugins'},
+            {'form': 'path', 'root': 'mandir', 'value': 'odd/lib'}]
 
 
 def installdir_case(rng, i):
@@ -987,7 +989,9 @@ class Layout:
         replaces it."""
         roots = {'prefix': self.prefix, 'exec_prefix': self.prefix,
                  'libdir': self.libdir, 'includedir': self.includedir,
-                 'datadir': os.path.join(self.prefix, 'share')}
+                 'datadir': os.path.join(self.prefix, 'share'),
+                 'bindir': os.path.join(self.prefix, 'bin'),
+                 'mandir': os.path.join(self.prefix, 'share', 'man')}
         if d is None:
             return roots[default_root]
         if d['form'] == 'rel':
